@@ -95,8 +95,14 @@ class HalModel:
                 if slot == "start":
                     ok = (val == self.OK) if ety == "DeviceStatusCode" else (val == self.RUNNING)
                     if ok:
-                        s2 = s2.set(G_STARTED, 1)
+                        s2 = s2.set(G_STARTED, 1).set(("G", "stop_attempted"), 0)
+                if slot == "append" and ety != "DeviceStatusCode" and val != self.RUNNING:
+                    # the driver reports that it left the running state by
+                    # itself (the shipped writers stop themselves on a failed
+                    # append): there is nothing left to stop
+                    s2 = s2.set(G_STARTED, 0)
                 if slot == "stop":
+                    s2 = s2.set(("G", "stop_attempted"), 1)
                     if ety == "DeviceStatusCode" or val != self.RUNNING:
                         s2 = s2.set(G_STARTED, 0)
                 yield (I(val), s2)
